@@ -147,6 +147,38 @@ theorem decisions_as_in_source :
     unfold Pyx.Gen.CheckCond.exitNonZero exitStatus
     by_cases h : mainErrors w rels kinds > 0 <;> simp [h]
 
+/-- what one accumulation statement of `main` adds to `error` (generic interpretation of the IR emitted by
+    translator/gen_checkcond.py from the tail of `main` of BOTH command-line tools) -/
+def iMainStmt (w : World) (rels : List String) (kinds : List Kind) : Pyx.Gen.CheckCond.MainStmt → Nat
+  | .forRels => (rels.map (fun r => checkAssoc w (some r))).sum
+  | .ifNoRels => if rels.isEmpty then checkAssoc w none else 0
+  | .forKinds => (kinds.map (fun k => checkUniq w (some k))).sum
+  | .ifNoKinds => if kinds.isEmpty then checkUniq w none else 0
+
+/-- `error = 0; <statements>; return error` -/
+def iMain (w : World) (rels : List String) (kinds : List Kind) (prog : List Pyx.Gen.CheckCond.MainStmt) : Nat :=
+  (prog.map (iMainStmt w rels kinds)).sum
+
+/-- SOURCE TIE of the two `main` functions: the model's `mainErrors` is the interpretation of the statement list read
+    from xtuml/consistency_check.py AND of the one read from bridgepoint/consistency_check.py on this run, and both
+    tools' exit expression is the model's — for every population and every option list.  Dropping, duplicating or
+    re-guarding one of the four statements in either tool changes the generated list and this theorem fails. -/
+theorem mains_as_in_source (w : World) (rels : List String) (kinds : List Kind) :
+    mainErrors w rels kinds = iMain w rels kinds Pyx.Gen.CheckCond.mainXtuml ∧
+    mainErrors w rels kinds = iMain w rels kinds Pyx.Gen.CheckCond.mainBridgepoint ∧
+    Pyx.Gen.CheckCond.exitNonZeroBp (mainErrors w rels kinds) = decide (exitStatus w rels kinds ≠ 0) := by
+  refine ⟨?_, ?_, ?_⟩
+  · unfold mainErrors iMain Pyx.Gen.CheckCond.mainXtuml
+    simp only [List.map_cons, List.map_nil, List.sum_cons, List.sum_nil, iMainStmt]
+    cases hr : rels.isEmpty <;> cases hk : kinds.isEmpty <;>
+      simp_all [List.isEmpty_iff]
+  · unfold mainErrors iMain Pyx.Gen.CheckCond.mainBridgepoint
+    simp only [List.map_cons, List.map_nil, List.sum_cons, List.sum_nil, iMainStmt]
+    cases hr : rels.isEmpty <;> cases hk : kinds.isEmpty <;>
+      simp_all [List.isEmpty_iff]
+  · unfold Pyx.Gen.CheckCond.exitNonZeroBp exitStatus
+    by_cases h : mainErrors w rels kinds > 0 <;> simp [h]
+
 /-! non-vacuity: a 1:1 unconditional association with one unlinked target instance, one class with a
     duplicated identifier and a null id -/
 def w0 : World :=
@@ -160,6 +192,12 @@ def w0 : World :=
     kindOf := fun x => if x < 2 then 0 else 1, count := 4 }
 example : checkAssoc w0 none = 1 ∧ checkAssoc w0 (some "R9") = 0 ∧ checkUniq w0 (some 0) = 1 ∧ checkUniq w0 (some 1) = 1 ∧
     isConsistent w0 = false ∧ exitStatus w0 [] [] = 1 := by decide
+
+/-- non-vacuity of `mains_as_in_source`: on `w0` the interpreted statement lists give the counts of the parts selected, and a
+    `main` that lost its unrestricted uniqueness fall-back (a different list) is a different function -/
+example : iMain w0 [] [] Pyx.Gen.CheckCond.mainBridgepoint = 3 ∧ iMain w0 ["R9"] [] Pyx.Gen.CheckCond.mainXtuml = 2 ∧
+    iMain w0 ["R1"] [0] Pyx.Gen.CheckCond.mainBridgepoint = 2 ∧
+    iMain w0 [] [] [.forRels, .ifNoRels, .forKinds] = 1 := by decide
 
 /-- `check_subtype_integrity(m, super_kind, rel)`: when no navigation raises (every link key of the supertype class
     with the rel id can be navigated from every pool instance), the count is exactly the number of instances of
